@@ -213,6 +213,16 @@ func checkC03(c *checkCtx) {
 				}
 			}
 			c.cov("c03.event_metrics_checked")
+			if len(e.Aux) == 2 {
+				if e.Hedges != rate(e.Executions, e.Attempts) || e.Aux[0] != rate(e.Retries, e.Attempts) {
+					fail("event-metrics", "rates", fmt.Sprintf("%s: the state change event reports failureRate=%d successRate=%d for failures=%d successes=%d executions=%d", what, e.Hedges, e.Aux[0], e.Executions, e.Retries, e.Attempts), at)
+					return false
+				}
+				if e.Aux[1] == 1 {
+					fail("event-metrics", "context", what+": the state change event has no context", at)
+					return false
+				}
+			}
 			if !okm {
 				fail("event-metrics", "counts", fmt.Sprintf("%s: the %s->%s event carries metrics executions=%d failures=%d successes=%d but the state being left held one of %v", what, brStateNames[want[i].from], brStateNames[want[i].to], e.Attempts, e.Executions, e.Retries, m.oldMetrics[i]), at)
 				return false
@@ -338,6 +348,9 @@ func checkC03(c *checkCtx) {
 				fail("state", "state", fmt.Sprintf("State() is %s but the documented machine is %s", brStateNames[e.A], brStateNames[m.state]), e)
 				stop = true
 				break
+			}
+			if len(e.Aux) > 1 && e.Aux[1] == 1 {
+				fail("state", "predicates", fmt.Sprintf("IsClosed/IsOpen/IsHalfOpen disagree with State() = %s read at the same instant", brStateNames[e.A]), e)
 			}
 			if rem := m.remaining(now); time.Duration(e.B) != rem {
 				fail("remaining", "delay", fmt.Sprintf("RemainingDelay() is %v but %v of the delay %v remain", time.Duration(e.B), rem, m.delay), e)
